@@ -19,11 +19,13 @@ PERS = "synkit/CRN/Petri/persistence.py"
 
 META = {
     "explanation": (
-        "R5 directed walk at the four per-reaction arc walks of the siphon/trap predicates (writer role table from "
-        "hypergraph_to_bipartite; DiGraph out-arc semantics). R13 duality: both predicates are normalised to "
-        "`for every reaction: A(r) => B(r)` with (A, B) = (produces a member, consumes a member) for siphons and the "
-        "swap for traps; empty set rejected; all subset sizes 1..n enumerated in increasing size, minimality filter. "
-        "cmp/R15: PetriNet.enabled compares the marking with pre by `<` (truth table), fire is -pre +post as linear "
+        "R5 directed walk at the per-reaction arc walks of the siphon/trap predicates (writer role table from "
+        "hypergraph_to_bipartite; DiGraph out-arc semantics). R13: both predicates are tabulated with the analyser's own "
+        "evaluator on every one-reaction net over three species x every candidate set (plus two-reaction nets), arcs "
+        "as the view writer emits them: siphon = `for every reaction: produces a member => consumes a member`, trap = "
+        "the dual, empty set rejected (structural walk-and-flag rule as fall-back); all subset sizes 1..n enumerated in "
+        "increasing size, minimality filter. cmp/R15: PetriNet.enabled is tabulated on small markings x pre-sets "
+        "(enabled iff every pre-place holds its weight), fire is -pre +post as linear "
         "forms on a copy. CFG dominance: in the BFS every fire is dominated by a true enabled() on the same marking and "
         "transition, success is returned only on equality with the target, the visited set guards the queue, bounds "
         "only cut; M0/MT are (supply = flow, species 0) / (target = flow, species 0)."
